@@ -313,9 +313,15 @@ def analyze(ctx, want):
             if found is not None:
                 tests.append(found)
         rounds = len(seq)
-        if rounds == 0:
-            continue
         leaves = bool(p.calls(r"Minimizer::create_from_partition$"))
+        if rounds == 0:
+            if leaves:
+                # the automaton is rebuilt from a partition that was never refined (for the tree's `partition_new`: an empty
+                # one, so that the rebuilt automaton has no state at all and the first lookup in it panics)
+                ok_all = False
+                cs = [(S.fstr(c)[:60], o) for c, o in p.conds if not S.fstr(c).startswith("log::")][-2:]
+                det.append("create_from_partition is reached without a single refinement round (when %s)" % cs)
+            continue
         if leaves:
             seen_loop.add("exit")
             if len(tests) < rounds or tests[rounds - 1] is not False:
